@@ -31,13 +31,13 @@ SetOf(q) == { q[i] : i \in 1..Len(q) }
 
 CfgOf(r) ==
     [ mac |-> r.mac,
-      self |-> IF r.hasself = 1 THEN SetOf(r.self) ELSE "none",
-      deny |-> IF r.hasdeny = 1 THEN SetOf(r.deny) ELSE "none",
+      hasself |-> r.hasself, self |-> SetOf(r.self),
+      hasdeny |-> r.hasdeny, deny |-> SetOf(r.deny),
       key |-> r.key, logger |-> r.logger ]
 
 ObsOf(r) == [ kind |-> r.out, rep |-> r.rep, log |-> r.log, tcb |-> r.tcb, aux |-> r.aux ]
 
-DefaultCfg == [ mac |-> << 0, 0, 0, 0, 0, 0 >>, self |-> "none", deny |-> "none", key |-> 0, logger |-> "none" ]
+DefaultCfg == [ mac |-> << 0, 0, 0, 0, 0, 0 >>, hasself |-> 0, self |-> {}, hasdeny |-> 0, deny |-> {}, key |-> 0, logger |-> "none" ]
 
 TraceInit == Init(DefaultCfg) /\ l = 1
 
